@@ -384,16 +384,16 @@ Qed.
 Lemma dec_protected_of_enc l pb :
   l <> [] -> simple (GMap l) = true -> (forall k v, entry_in k v l -> okval v) ->
   enc_protected (Some l) = Acc pb ->
-  (forall m, enc_hmap l = Acc m -> within_limits m) ->
-  exists m dl, enc_hmap l = Acc m /\ pb = ser (tbstr m) /\ short m /\ m <> [] /\
+  (forall m, enc_hmap true l = Acc m -> within_limits m) ->
+  exists m dl, enc_hmap true l = Acc m /\ pb = ser (tbstr m) /\ short m /\ m <> [] /\
                dec_protected (tbstr m) = Acc (cast_alg dl) /\ hrel l dl /\ validate_params dl true = true /\
-               validate_params l true = true.
+               validate_params l true = true /\ rel (GMap l) (GMap dl).
 Proof.
   intros Hne Hs Hok He Hlim. unfold enc_protected in He. destruct l as [|x0 l0]; [contradiction|].
   set (l := x0 :: l0) in *.
   destruct (validate_params l true) eqn:V; [|discriminate].
-  destruct (enc_hmap l) as [m| | |] eqn:Em; cbn [bind] in He; try discriminate. inversion He; subst pb.
-  destruct (enc_map_dec l m Hs Em) as (ww & tl & dl & lp & -> & [W Cn] & Nl & Dl & Nd & Plp & Rl & Evn & Kd & LP & VP).
+  destruct (enc_hmap true l) as [m| | |] eqn:Em; cbn [bind] in He; try discriminate. inversion He; subst pb.
+  destruct (enc_map_dec true l m Hs Em) as (ww & tl & dl & lp & -> & [W Cn] & Nl & Dl & Nd & Plp & Rl & Evn & Kd & LP & VP).
   assert (Hn : exists ks, norm_labels l = Some ks).
   { unfold validate_params in V. destruct (norm_labels l); [eauto|discriminate]. }
   destruct Hn as [ks Hn].
@@ -403,7 +403,7 @@ Proof.
   assert (Sm : short (ser (WMap ww tl))).
   { split; [apply ser_ok; exact W|]. destruct (Hlim _ eq_refl) as [_ Hl]. exact Hl. }
   exists (ser (WMap ww tl)), dl. split; [reflexivity|]. split; [apply enc_bstr_ser|]. split; [exact Sm|].
-  split; [rewrite Ea; discriminate|]. split; [|auto].
+  split; [rewrite Ea; discriminate|]. split; [|split; [exact HR|split; [exact V'|split; [reflexivity|econstructor; eauto]]]].
   unfold tbstr. rewrite Ea. cbn [dec_protected]. rewrite Ha. cbn [Z.eqb Pos.eqb negb]. rewrite <- Ea.
   rewrite (lib_wf_of_ser _ W (Hlim _ eq_refl)). rewrite LP. cbn [bind]. rewrite Nd. cbn [negb].
   rewrite VP. cbn [bind]. rewrite (zip_keys_vals dl Evn), V'. reflexivity.
@@ -414,8 +414,8 @@ Qed.
 Theorem protected_roundtrip l pb :
   l <> [] -> simple (GMap l) = true -> (forall k v, entry_in k v l -> okval v) ->
   enc_protected (Some l) = Acc pb ->
-  (forall m, enc_hmap l = Acc m -> within_limits m) ->
-  exists m dl, enc_hmap l = Acc m /\ pb = enc_bstr m /\
+  (forall m, enc_hmap true l = Acc m -> within_limits m) ->
+  exists m dl, enc_hmap true l = Acc m /\ pb = enc_bstr m /\
                unmarshal_protected pb = Acc (cast_alg dl) /\ hrel l dl /\ validate_params dl true = true.
 Proof.
   intros Hne Hs Hok He Hlim.
@@ -473,12 +473,12 @@ Lemma dec_unprotected_of_enc l ub fuel :
   enc_unprotected (Some l) = Acc ub -> within_limits ub ->
   exists w dl, ub = ser w /\ wf w = true /\ notags w = true /\ (exists ww tl, w = WMap ww tl) /\
                dec_unprotected (S fuel) w = Acc dl /\ hrel l dl /\ validate_params dl false = true /\
-               validate_params l false = true.
+               validate_params l false = true /\ rel (GMap l) (GMap dl).
 Proof.
   intros Hne Hs Hok He Hlim. unfold enc_unprotected in He. destruct l as [|x0 l0]; [contradiction|].
   set (l := x0 :: l0) in *.
   destruct (validate_params l false) eqn:V; [|discriminate].
-  destruct (enc_map_dec l ub Hs He) as (ww & tl & dl & lp & -> & [W Cn] & Nl & Dl & Nd & Plp & Rl & Evn & Kd & LP & VP).
+  destruct (enc_map_dec false l ub Hs He) as (ww & tl & dl & lp & -> & [W Cn] & Nl & Dl & Nd & Plp & Rl & Evn & Kd & LP & VP).
   assert (Hn : exists ks, norm_labels l = Some ks).
   { unfold validate_params in V. destruct (norm_labels l); [eauto|discriminate]. }
   destruct Hn as [ks Hn].
@@ -487,7 +487,7 @@ Proof.
   pose proof (no_cs_labels l dl HR Hok V) as NC.
   exists (WMap ww tl), dl. split; [reflexivity|]. split; [exact W|].
   split; [cbn [notags]; clear -Nl; induction tl as [|w tl IH]; [reflexivity|]; cbn [forallb] in Nl; apply andb_true_iff in Nl as [A B]; rewrite A; apply IH; exact B|].
-  split; [eauto|]. split; [|auto].
+  split; [eauto|]. split; [|split; [exact HR|split; [exact V'|split; [reflexivity|econstructor; eauto]]]].
   cbn [dec_unprotected]. rewrite LP. cbn [bind]. rewrite Nd. cbn [negb].
   match goal with |- (let* vs := ?G tl (gkeys dl) in _) = _ =>
     assert (EG : forall t ks0, length ks0 = npairs t -> (forall k', In k' ks0 -> is_cs_label k' = false) -> G t ks0 = values_pass t) end.
